@@ -194,6 +194,70 @@ def _is_member_expr(e, names):
 DELEGATING = ['export_value', 'import_value', 'validate', '__call__', 'format_value', 'set_main_unit', 'compatible', 'copy', 'export_datatype']
 
 
+def _handed_to_helper(m, f, names, meth, _depth=0):
+    """the member datatype(s) of a container are passed to a function of the module (positionally or by keyword) instead of
+    being called in place: (True, helper) when the helper - or a function it passes them on to - calls .<meth> on something
+    derived from what it was given, (False, helper) when no such call is found there, None when nothing is handed on"""
+    res = None
+    for c in calls_in(f.node, into_lambda=True):
+        if not isinstance(c.func, ast.Name):
+            continue
+        g = m.functions.get(f'{f.module.name}.{c.func.id}')
+        if g is None or g.cls is not None:
+            continue
+        given = [i for i, a in enumerate(c.args) if _is_member_expr(a, names)]
+        kws = [k.arg for k in c.keywords if k.arg and _is_member_expr(k.value, names)]
+        if not given and not kws:
+            continue
+        a = g.node.args
+        pos = [x.arg for x in a.args]
+        tainted = {pos[i] for i in given if i < len(pos)} | {k for k in kws if k in pos + [x.arg for x in a.kwonlyargs]}
+        if a.kwarg and any(k not in pos for k in kws):
+            tainted.add(a.kwarg.arg)
+        if a.vararg and any(i >= len(pos) for i in given):
+            tainted.add(a.vararg.arg)
+        if _derived_call(m, g, tainted, meth, 0):
+            return True, g.qualname
+        res = (False, g.qualname)
+    return res
+
+
+def _derived_call(m, g, tainted, meth, depth):
+    tainted = set(tainted)
+    changed = True
+    nodes = list(ast.walk(g.node))
+    while changed:
+        changed = False
+        for n in nodes:
+            pairs = []
+            if isinstance(n, ast.Assign):
+                pairs = [(t, n.value) for t in n.targets]
+            elif isinstance(n, (ast.For, ast.comprehension)):
+                pairs = [(n.target, n.iter)]
+            elif isinstance(n, ast.NamedExpr):
+                pairs = [(n.target, n.value)]
+            for t, v in pairs:
+                if any(isinstance(x, ast.Name) and x.id in tainted for x in ast.walk(v)):
+                    for x in ast.walk(t):
+                        if isinstance(x, ast.Name) and x.id not in tainted:
+                            tainted.add(x.id)
+                            changed = True
+    for c in nodes:
+        if not isinstance(c, ast.Call):
+            continue
+        if isinstance(c.func, ast.Attribute) and c.func.attr == meth and any(isinstance(x, ast.Name) and x.id in tainted for x in ast.walk(c.func.value)):
+            return True
+        if isinstance(c.func, ast.Name) and depth < 2:
+            h = m.functions.get(f'{g.module.name}.{c.func.id}')
+            if h is not None and h.cls is None and h is not g:
+                pos = [x.arg for x in h.node.args.args]
+                t2 = {pos[i] for i, a in enumerate(c.args) if i < len(pos) and any(isinstance(x, ast.Name) and x.id in tainted for x in ast.walk(a))}
+                t2 |= {k.arg for k in c.keywords if k.arg in pos and any(isinstance(x, ast.Name) and x.id in tainted for x in ast.walk(k.value))}
+                if t2 and _derived_call(m, h, t2, meth, depth + 1):
+                    return True
+    return False
+
+
 @rule('C02.R2', min_instances=20)
 def container_delegation(ctx):
     """container method M delegates to member method M"""
@@ -220,6 +284,13 @@ def container_delegation(ctx):
             calls = [(c, a) for c, a in calls if a not in ('items', 'values', 'keys', 'get')]
             construct = f'{f.qualname}:delegates to member.{meth}'
             if not calls:
+                via = _handed_to_helper(m, f, names, meth)
+                if via is not None:
+                    if via[0]:
+                        ctx.ok(construct, f.node, f'the member datatype(s) are handed to {via[1]}, which calls .{meth} on what it was given', f)
+                    else:
+                        ctx.undecided(construct, f.node, f'the member datatype(s) are handed to {via[1]}; no .{meth} call on them was found there', f)
+                    continue
                 ctx.bad(construct, f.node, f'{cname}.{meth} never calls its member datatype(s): nested values are not '
                         f'{"converted" if meth != "copy" else "copied"} by the member codec', f)
                 continue
@@ -551,3 +622,57 @@ def a_value_at_its_limit_is_accepted_back(ctx):
     exactly the declared maximal length must pass the conversion there (a `range(lo, hi)` membership test excludes hi)"""
     from sa.rules import c01
     c01.range_membership_has_inclusive_bounds(ctx)
+
+
+def _len_names(f, p):
+    """locals of f bound to the length of the offered value (`size = len(value)`, also as a leaf of a conditional expression)"""
+    res = set()
+    for st in body_walk(f.node):
+        if isinstance(st, ast.Assign) and len(st.targets) == 1 and isinstance(st.targets[0], ast.Name):
+            leaves = [st.value]
+            while any(isinstance(x, ast.IfExp) for x in leaves):
+                leaves = [y for x in leaves for y in ((x.body, x.orelse) if isinstance(x, ast.IfExp) else (x,))]
+            if any(isinstance(x, ast.Call) and isinstance(x.func, ast.Name) and x.func.id == 'len' and len(x.args) == 1
+                   and isinstance(x.args[0], ast.Name) and x.args[0].id == p for x in leaves):
+                res.add(st.targets[0].id)
+    return res
+
+
+@rule('C02.R12', min_instances=3)
+def an_empty_value_is_not_refused_by_its_truth_value(ctx):
+    """the conversions of the sized types (blob, string, array): a refusal must come from a comparison with the declared
+    limits, not from the truth value of the length - `if not size: raise` refuses b'' / '' / [] although minbytes / minchars /
+    minlen is 0, so a value that was exported can not come back in"""
+    m = ctx.m
+    for cname in ('BLOBType', 'StringType', 'ArrayOf'):
+        for meth in ('__call__', 'validate', 'import_value'):
+            if meth not in m.cls(f'{DT}.{cname}').methods:
+                continue
+            f = m.method(f'{DT}.{cname}', meth, inherited=False)
+            if len(f.node.args.args) < 2:
+                continue
+            ctx.analysed(f)
+            p = f.node.args.args[1].arg
+            lens = _len_names(f, p)
+            hits = 0
+            for st in body_walk(f.node):
+                if not isinstance(st, ast.If):
+                    continue
+                # which branch runs for length 0, when the test is the truth value of the length (or its negation)
+                t, neg = st.test, False
+                while isinstance(t, ast.UnaryOp) and isinstance(t.op, ast.Not):
+                    t, neg = t.operand, not neg
+                is_len = (isinstance(t, ast.Name) and t.id in lens) or (
+                    isinstance(t, ast.Call) and isinstance(t.func, ast.Name) and t.func.id == 'len' and len(t.args) == 1
+                    and isinstance(t.args[0], ast.Name) and t.args[0].id == p)
+                if not is_len:
+                    continue
+                branch = st.body if neg else st.orelse
+                if branch and any(isinstance(x, ast.Raise) for x in branch):
+                    hits += 1
+                    ctx.bad(f'{f.qualname}:an empty value is refused by a comparison with the limit only', st,
+                            f'`if {src(st.test)}:` raises for length 0 whatever the declared minimum is: an empty value is valid when the '
+                            'minimal length is 0 (the default), it is exported and then refused on the way back in', f)
+            if not hits:
+                ctx.ok(f'{f.qualname}:an empty value is refused by a comparison with the limit only', f.node,
+                       f'no refusal decided by the truth value of the length (length locals: {sorted(lens) or "-"})', f)
